@@ -399,6 +399,17 @@ def run(stmts: list[ast.stmt], env: dict[str, Any], funcs: dict[str, ast.Functio
             raise _Break()
         elif isinstance(s, ast.Continue):
             raise _Continue()
+        elif isinstance(s, ast.FunctionDef):
+            # a local closure: callable by name with the enclosing environment as its globals of last resort
+            outer = env
+
+            def _closure(*a, _fn=s, _outer=outer, **k):
+                sub = dict(funcs or {})
+                g = dict(sub.get("$globals") or {})
+                g.update({kk: vv for kk, vv in _outer.items() if not kk.startswith("$")})
+                sub["$globals"] = g
+                return call(_fn, list(a), k, sub, depth + 1)
+            env[s.name] = _closure
         elif isinstance(s, (ast.Pass, ast.Import, ast.ImportFrom)):
             pass        # a local import binds names the world provides among the globals
         elif isinstance(s, ast.Expr) and isinstance(s.value, ast.Constant):
